@@ -722,6 +722,35 @@ Eval(e, env, log) ==
                     IN IF IsErr(m.v) THEN m
                        ELSE IF \E i \in 1..Len(m.v[2]) : ~Hashable(m.v[2][i]) THEN R(UnH, m.log)
                        ELSE R(I(Len(Dedup(m.v[2], <<>>))), m.log)
+               \* <lazy select>.accumulate(f [, seed]) consumed through take/limit: accumulate is a generator - nothing is pulled from
+               \* its input before the first running total is asked for, and then one element per total (none for the seed itself)
+               ELSE IF f \in {"take", "limit"} /\ Len(e[4]) = 1 /\ e[4][1][1] = "const" /\ e[4][1][2][1] = "i" /\ e[4][1][2][2] >= 0 /\ e[5] = <<>>
+                       /\ e[2][1] = "mcall" /\ e[2][3] = "accumulate" /\ Len(e[2][4]) \in {1, 2} /\ e[2][5] = <<>>
+                       /\ e[2][2][1] = "mcall" /\ e[2][2][3] = "select" /\ Len(e[2][2][4]) = 1 /\ e[2][2][5] = <<>> THEN
+                    LET ae == e[2]
+                        se == ae[2]
+                        src == Eval(se[2], env, log)
+                        srcf == IF IsErr(src.v) THEN src ELSE Finish(src.v, src.log)
+                        sd == IF Len(ae[4]) = 2 THEN Eval(ae[4][2], env, srcf.log) ELSE R(Null, srcf.log)      \* the seed is an eager argument
+                        sel == <<"lam", se[4][1], env>>
+                        acc == <<"lam", ae[4][1], env>>
+                        want == e[4][1][2][2]
+                        RECURSIVE LA(_, _, _, _, _)
+                        \* xs: input elements not pulled yet; tot: running total (has: is there one); out: totals handed out so far
+                        LA(xs, has, tot, lg, out) ==
+                            IF Len(out) = want THEN R(L(out), lg)
+                            ELSE IF ~has THEN
+                                (IF xs = <<>> THEN R(ErrV, lg)            \* no seed and nothing to start from
+                                 ELSE LET x == Apply(sel, <<Head(xs)>>, lg) IN IF IsErr(x.v) THEN x ELSE LA(Tail(xs), TRUE, x.v, x.log, Append(out, x.v)))
+                            ELSE IF xs = <<>> THEN R(L(out), lg)
+                            ELSE LET x == Apply(sel, <<Head(xs)>>, lg)
+                                 IN IF IsErr(x.v) THEN x
+                                    ELSE LET t == Apply(acc, <<tot, x.v>>, x.log)
+                                         IN IF IsErr(t.v) THEN t ELSE LA(Tail(xs), TRUE, t.v, t.log, Append(out, t.v))
+                    IN IF IsErr(srcf.v) THEN srcf ELSE IF ~IsColl(srcf.v) THEN R(ErrV, srcf.log) ELSE IF IsErr(sd.v) THEN sd
+                       ELSE IF want = 0 THEN R(L(<<>>), sd.log)
+                       ELSE IF Len(ae[4]) = 2 THEN LA(srcf.v[2], TRUE, sd.v, sd.log, <<sd.v>>)
+                       ELSE LA(srcf.v[2], FALSE, Null, sd.log, <<>>)
                ELSE IF IsErr(r.v) THEN r
                \* a method of a yaqlized host object (the harness's probe object `hm` returns its positional arguments followed by
                \* the named ones a, b, note): arguments are evaluated once each, positional ones first, then named ones as written
